@@ -140,14 +140,120 @@ def run(tier, seed, model):
             break
     findings_stream(camp)
     batch.resolve(camp, "C02")
+    if model is not None:
+        theorem_samples(camp, model, rng, 40 if tier == "quick" else 1500)
     camp.rule = ("random framebuffer contents (palettes of 1..200 colours and noise) encoded by an RFC 6143 encoder written "
                  "independently of the client: Raw, CopyRect, RRE, CoRRE (with decoy sub-rectangles), Hextile (raw/solid/fg/"
                  "coloured tiles, carried background), ZRLE (raw/solid/packed/plain RLE/palette RLE, persistent zlib stream), "
                  "cursor, desktop-size, last-rect, QEMU key pseudo rectangles; sizes 0..140 incl. non-multiples of 16/64; all 5 "
                  "accepted formats (and the fallback after SetPixelFormat); 1..4 messages then a Bell; whole and 4-chunk delivery; "
                  "judged: screen == reference canvas, commit lists, exact consumption, Bell last; compared with the Coq model; "
-                 "non-trivial = session outside the two recorded ZRLE findings")
+                 "non-trivial = session outside the two recorded ZRLE findings; plus THEOREM SAMPLES: random rectangles in the "
+                 "domain of C02_update_mixed_encodings (qspec/qok) whose bytes (qwire) and promised callbacks (qevents) come from "
+                 "the extracted Coq spec and are fed to the real client - the theorem statements are checked against the "
+                 "implementation, not only against the model")
     return camp
+
+
+# ----------------------------------------------------------------------------------------------------------------
+# the STATEMENTS of the C02 theorems sampled against the implementation: rectangles as the theorems quantify over them
+# (qspec: Raw / CopyRect / RRE / CoRRE / Hextile tiles / cursor, satisfying qok) -> the extracted Coq spec gives the
+# bytes a server writes (qwire) and the callbacks promised (qevents) -> the REAL client is fed those bytes
+
+def _px(rng, n=1):
+    return [rng.getrandbits(8) for _ in range(4 * n)]
+
+
+def gen_hextile(rng):
+    w, h = rng.choice([1, 5, 16, 17, 33]), rng.choice([1, 3, 16, 20])
+    x, y = rng.randrange(0, 8), rng.randrange(0, 8)
+    tiles = []
+    bg = fg = False          # what a later tile may rely on (HextileP.next_bg / next_fg)
+    for ty in range(0, h, 16):
+        for tx in range(0, w, 16):
+            tw, th = min(16, w - tx), min(16, h - ty)
+            r = rng.random()
+            if r < 0.25:
+                tiles.append([0, _px(rng, tw * th)])
+                continue                                      # colours survive a raw tile
+            bgo = [_px(rng)] if (not bg or rng.random() < 0.4) else []
+            bg = True
+            kind = rng.choice([0, 1, 1, 2, 2])
+            fgo = [_px(rng)] if (kind != 2 and rng.random() < 0.5) or (kind == 1 and not fg) else []
+            if kind == 2 and fgo:
+                fgo = []                                      # ForegroundSpecified excludes SubrectsColoured
+            def hsub():
+                sx, sy = rng.randrange(0, tw), rng.randrange(0, th)
+                return [sx, sy, rng.randrange(1, tw - sx + 1), rng.randrange(1, th - sy + 1)]
+            n = rng.choice([0, 1, 2, 5])
+            if kind == 0:
+                tiles.append([1, bgo, fgo, 0])
+                fg = fg or bool(fgo)
+            elif kind == 1:
+                tiles.append([1, bgo, fgo, 1, [hsub() for _ in range(n)]])
+                fg = fg or bool(fgo)
+            else:
+                tiles.append([1, bgo, fgo, 2, [[_px(rng), hsub()] for _ in range(n)]])
+                fg = False                                    # not relied upon after coloured subrectangles
+    return [4, x, y, w, h, tiles], (x, y, w, h)
+
+
+def gen_qspecs(rng):
+    rs, pos = [], []
+    for _ in range(rng.randrange(1, 7)):
+        k = rng.choice([0, 1, 2, 3, 4, 4, 5])
+        x, y = rng.randrange(0, 30), rng.randrange(0, 20)
+        w, h = rng.choice([0, 1, 2, 5]), rng.choice([0, 1, 3, 4])
+        if k == 0:
+            rs.append([0, x, y, w, h, _px(rng, w * h)])
+        elif k == 1:
+            rs.append([1, x, y, w, h, rng.randrange(0, 30), rng.randrange(0, 20)])
+        elif k in (2, 3):
+            lim = 65536 if k == 2 else 256
+            subs = [[_px(rng), rng.choice([0, 1, 3, lim - 1]), rng.choice([0, 2, lim - 1]), rng.choice([0, 1, 4]), rng.choice([0, 1, 2])]
+                    for _ in range(rng.choice([0, 0, 1, 3, 6]))]
+            rs.append([k, x, y, w, h, _px(rng), subs])
+        elif k == 4:
+            q, p = gen_hextile(rng)
+            rs.append(q)
+            pos.append(p)
+            continue
+        else:
+            rs.append([5, rng.randrange(0, 4), rng.randrange(0, 4), w, h, _px(rng, w * h),
+                       [rng.getrandbits(8) for _ in range(((w + 7) // 8) * h)]])
+            x, y = rs[-1][1], rs[-1][2]
+        pos.append((x, y, w, h))
+    return rs, pos
+
+
+def theorem_samples(camp, model, rng, n):
+    cases = [gen_qspecs(rng) for _ in range(n)]
+    answers = model.call_many([("spec_update", rs) for rs, _ in cases])
+    hs = b"RFB 003.008\n\x01\x01\0\0\0\0" + struct.pack("!HH16sI", 64, 48, rfbgen.RGB32.block(), 0)
+    for (rs, pos), ans in zip(cases, answers):
+        wire = bytes(ans[0])
+        want, _ = rfbreal.canon_model([ans[1], [2]])
+        want = want + [("Commit", [tuple(p) for p in pos]), ("Bell",)]
+        data = hs + wire + b"\x02"
+        cut = rng.randrange(len(hs), len(data))
+        for chunks in ([data], [data[:cut], data[cut:]]):
+            cfg = Cfg(variant=1, nocursor=rng.random() < 0.5)
+            r = run_real(cfg, chunks)
+            camp.evaluations += 1
+            camp.count("theorem-sample")
+            for q in rs:
+                camp.count("theorem-sample:" + ["raw", "copyrect", "rre", "corre", "hextile", "cursor"][q[0]])
+            camp.nontrivial.add(("thm", len(wire), wire[:24], len(chunks)))
+            evs = r["events"]
+            b = next((i for i, e in enumerate(evs) if e == ("Begin",)), None)
+            got = evs[b:] if b is not None else []
+            if r["final"][0] != "idle" or got != want:
+                k = next((i for i, (a, c) in enumerate(zip(got, want)) if a != c), min(len(got), len(want)))
+                camp.oracle_failures.append({"kind": "oracle", "property": "C02", "case": case_payload(cfg, chunks, {"spec": "qupdate_roundtrip"}),
+                                             "what": f"an update written as the C02 theorems say ({[q[0] for q in rs]} = kinds of its rectangles): the "
+                                                     f"client ends {r['final'][:2]}; callback #{k}: promised {trim([want[k]]) if k < len(want) else None}, "
+                                                     f"made {trim([got[k]]) if k < len(got) else None}"})
+                return
 
 
 def replay(payload):
